@@ -29,8 +29,13 @@ AXFR == 252
 IXFR == 251
 OTHERQ == 1
 
+\* A SOA record is the pair (serial, variant): 100 + s is the zone's SOA with
+\* serial s, 200 + s a SOA with the same serial and other RDATA (MINIMUM
+\* differs).  Serials (version indexes) stay below 100.
 SoaRec(s) == 100 + s
 IsSoa(r) == r >= 100
+SoaSerial(r) == (r - 100) % 100
+SoaVariant(r) == IF r < 200 THEN r + 100 ELSE r - 100     \* same serial, other RDATA
 KeyOf(r) == (r - 1) \div 2
 
 --------------------------------------------------------------------------
@@ -127,6 +132,9 @@ CorruptAt(ms, i, f) ==
 CorruptOk(ms, i, f) ==
   /\ f = "qd0" => (i = 1)                    \* later: question octets would be read as a record
   /\ f = "anminus" => ms[i].anc >= 2
+\* the j-th answer record of message i, a SOA, arrives with the same serial
+\* but other RDATA
+CorruptSoaAt(ms, i, j) == [ms EXCEPT ![i].an[j] = SoaVariant(@)]
 WrongQAt(ms, i, which) ==
   [ms EXCEPT ![i] = [@ EXCEPT !.qd = IF which = "qname" THEN << <<1, @[1][2]>> >>
                                      ELSE << <<0, OTHERQ>> >>]]
@@ -232,7 +240,7 @@ DbRemove(db, cur, k) == IF cur # <<>> THEN [db EXCEPT !.rem[k] = cur] ELSE db
 \* receiver zone: com(mitted), pen(ding), db (diff builder), st (updater state)
 ZoneInit(z) == [com |-> z, pen |-> z, db |-> NoDiffB(z), st |-> "normal"]
 
-SerialOf(soaSeq) == IF soaSeq = <<>> THEN 0 ELSE Head(soaSeq) - 100
+SerialOf(soaSeq) == IF soaSeq = <<>> THEN 0 ELSE SoaSerial(Head(soaSeq))
 FlatSorted(f) == SortS(Concat([i \in 1..Len(SetToSeq(DOMAIN f)) |-> f[SetToSeq(DOMAIN f)[i]]]))
 
 \* WriteZone::commit(false) + publish: [zn, diff]; diff = <<>> stands for None
@@ -246,9 +254,9 @@ Commit(zn) ==
       d == IF os > 0 /\ ns > 0 /\ os < ns
            THEN << [s |-> os, e |-> ns,
                     add |-> SortS((IF "D_zone_diff_not_net" \in Dev
-                                     THEN FlatSorted(zn.db.add) ELSE addNet) \o <<SoaRec(ns)>>),
+                                     THEN FlatSorted(zn.db.add) ELSE addNet) \o <<Head(zn.pen.soa)>>),
                     rem |-> SortS((IF "D_zone_diff_not_net" \in Dev
-                                     THEN FlatSorted(zn.db.rem) ELSE remNet) \o <<SoaRec(os)>>)] >>
+                                     THEN FlatSorted(zn.db.rem) ELSE remNet) \o <<Head(zn.com.soa)>>)] >>
            ELSE <<>>
   IN [zn |-> [zn EXCEPT !.com = zn.pen, !.db = NoDiffB(zn.pen)], diff |-> d]
 
@@ -274,6 +282,12 @@ Apply(zn, u) ==
     ELSE IF r \in Range(zn.pen.rr[KeyOf(r)]) /\ "D_xfr_dup_rr_kept" \notin Dev
          THEN Plain(zn)                       \* RFC 5936 2.2: duplicates MUST be ignored
          ELSE Plain(SetRr(KeyOf(r), <<r>> \o zn.pen.rr[KeyOf(r)]))
+  ELSE IF kind = "BBD" /\ "D_ixfr_soa_chain_unchecked" \notin Dev /\ zn.pen.soa # <<r>> THEN
+    \* types.rs, BeginBatchDelete: "The record must be a SOA record that matches
+    \* the SOA record of the zone version in which the subsequent DeleteRecords
+    \* should be deleted" - the difference sequence does not start at the
+    \* version the zone holds.  The code does not check.
+    [zn |-> zn, err |-> TRUE, diff |-> <<>>, commit |-> FALSE]
   ELSE IF kind = "BBD" THEN
     LET c == Commit(zn) IN
     [zn |-> [c.zn EXCEPT !.st = "batching"], err |-> FALSE, diff |-> c.diff, commit |-> TRUE]
